@@ -147,7 +147,7 @@ def run(chk, tier, replay):
     binary = common.build_harness("h_file")
     cases = gen(chk, [1, 2, 3, 4] if tier == "quick" else [1, 2, 3, 4, 5])
     if tier != "quick":
-        cases += gen(chk, [6, 7], per_shape=16)
+        cases += gen(chk, [6, 7, 8], per_shape=24)
     with rcommon.Fixtures(cases, tag="sch") as fx:
         lines = []
         for i, c in enumerate(cases):
